@@ -8,8 +8,10 @@ ENGINES = {
         "jobs": 8,
         # a decoder that accepts what the proved decoder rejects, or the other way round, breaks C20's
         # "received exactly as sent / garbage is answered with a protocol error"
-        "prop_failure": lambda case, impl, spec: (impl.startswith("ok ") != spec.startswith("ok "))
-        and case.split(" ")[0] in ("req", "resp", "frame"),
+        "prop_failure": lambda case, impl, spec: ((impl.startswith("ok ") != spec.startswith("ok "))
+                                                  and case.split(" ")[0] in ("req", "resp", "frame"))
+        # frames delivered through a transport with short reads / a buffered reader must be exactly the frames sent
+        or case.split(" ")[0] in ("framec", "frames"),
     },
 }
 
@@ -18,7 +20,7 @@ PROP = {
     "lean_modules": ["AxVerif.Model.Wire", "AxVerif.Model.Bytes", "AxVerif.Lemmas.Wire", "AxVerif.Lemmas.Bytes"],
     "rule": "cases = well-formed Request/Response values of every variant (encode bytes + decode∘encode), byte strings "
             "(random, any-opcode, lossy strings, Rows with chosen counts, mutated valid encodings) through both decoders, "
-            "frames around the 16 MiB cap; all derived from VERIF_SEED. Non-trivial = every case except plain short "
+            "frames around the 16 MiB cap, the same streams through transports delivering 1-9 bytes per read and several frames through a buffered reader; all derived from VERIF_SEED. Non-trivial = every case except plain short "
             "write_message calls; distinct = distinct case line.",
     "assumptions": [
         "strings are modelled as UTF-8 byte lists; from_utf8_lossy is modelled by `lossy` (maximal-subpart replacement) and tied by the `bytes-string-lossy` cases",
